@@ -5,7 +5,7 @@ implementation's own calls (inputs and answers) while the real function runs and
 answers to the model, so the oracle contract (U, Vh orthogonal, S sorted >= 0, M = U diag(S) Vh with
 M the EXACT cross-covariance of the float inputs; knn index = a nearest target point) is checked
 numerically on every case, by Coq, over Q.  The rational part of the model (centroids, cross-covariance,
-R = U Vh with the `|det + 1| < 1e-6 => R := -R` step, Umeyama sign and scale, translation) is evaluated
+R = U diag(1, 1, 1 - 2 mask) Vh with mask = `|det(U Vh) + 1| < 1e-6`, Umeyama sign and scale, translation) is evaluated
 by vm_compute on the float inputs taken as exact rationals and compared with the implementation's
 output (quaternion turned back into a matrix by the C03 model) within k*eps*magnitude.  The
 matrix -> LieTensor conversion (mat2SO3 regions, sqrt, cube root) is tied by the enclosure route
@@ -13,15 +13,18 @@ matrix -> LieTensor conversion (mat2SO3 regions, sqrt, cube root) is tied by the
 temporal_k+1) is a transition of the model's loop body.
 
 Property oracle (independent of the Coq model: numpy Kabsch/Umeyama + random transforms of the class,
-brute-force closest points): run on EVERY case; it is what turns a disagreement into a failing input and
-what reports the known defect of svdtf's reflection branch.
+brute-force closest points): run on EVERY case; it is what turns a disagreement into a failing input.
+History: the source before fix 23d9fa1 negated the whole matrix in svdtf's reflection branch (and ICP
+on planar clouds failed through it); the recorded witnesses of both are regression cases of every
+run, a recurrence is reported as a VIOLATION (known_findings.txt lists them as `fixed:`).
 """
 import math, contextlib, sys
 from ..common import *
 
 EPS = 2.0 ** -52
 K_EPS = 256
-# known findings (known_findings.txt)
+# keys of the two defects found by this check and since repaired in /repo (known_findings.txt: `fixed:` lines,
+# which suppress nothing): a recurrence is reported under the same key as a VIOLATION
 K_TF = 'svdtf:reflection-branch:det(U@Vh)=-1:whole-matrix-negated'
 K_ICP = 'ICP.forward:planar-cloud:svdtf-reflection-branch'
 
@@ -589,6 +592,8 @@ def conversion_stage1(ctx, meta):
         key = (m['fn'], region_of(quat_R(o[3:7])), m['flip'], m['with_scale'])
         if key in seen and len(seen) < 16 and i < len(meta) * 2 // 3:
             continue
+        if sum(1 for j in chosen if meta[j]['fn'] == m['fn']) >= (want + 1) // 2:
+            continue
         seen.add(key)
         chosen.append(i)
         if len(chosen) >= want:
@@ -959,9 +964,10 @@ def epnp_block(ctx, pp, torch):
 # ------------------------------------------------------------------------------------ known-finding witnesses
 def witnesses():
     """small exact inputs (target = source or a quarter turn of it) on which LAPACK's answer has
-    det(U Vh) = -1; several arrangements because the sign LAPACK picks depends on the layout"""
+    det(U Vh) = -1 for many of them (the sign LAPACK picks depends on the layout): the source before
+    23d9fa1 returned residual 32 instead of 0 on 13 of these"""
     base = [[2.0, 0.0, 0.0], [-1.0, 1.0, 0.0], [-1.0, -1.0, 0.0]]
-    # the witness of Props/C17.v (C17_svdtf_refuted: same cloud, same residual 32), target = half turn about x
+    # the witness of Props/C17.v (C17_svdtf_old_refuted: same cloud, same residual 32), target = half turn about x
     out = [dict(fn='svdtf', src=base, tgt=[[2.0, 0.0, 0.0], [-1.0, -1.0, 0.0], [-1.0, 1.0, 0.0]], with_scale=True, shape=[], item=0, exact=True)]
     for perm in ([0, 1, 2], [1, 2, 0], [2, 0, 1], [0, 2, 1], [1, 0, 2], [2, 1, 0]):
         for rk in ('identity', 'quarter-z', 'cyclic', 'quarter-x', 'turn-x'):
@@ -977,23 +983,24 @@ ICP_WITNESS = dict(call='ICP', kind='planar', shape=[], steps=10, patience=3, in
                    tgt=[[[0.0625, 0.0, 0.0], [2.0625, 0.0, 0.0], [2.0625, 0.0, 1.0], [0.0625, 0.0, 3.0], [-0.9375, 0.0, 1.0]]])
 
 
-def replay_known(ctx, pp, torch):
-    if K_TF in ctx.known and K_TF not in ctx.known_hit:
-        for w in witnesses():
-            why = replay(ctx, w)
-            if why:
-                ctx.known_hit[K_TF] = 'witness still fails: ' + why
-                break
-    if K_ICP in ctx.known and K_ICP not in ctx.known_hit:
-        cands = [ICP_WITNESS]
-        for perm in ([1, 0, 2], [2, 1, 0], [0, 2, 1], [1, 2, 0], [2, 0, 1]):
-            cands.append(dict(ICP_WITNESS, src=[[[p[j] for j in perm] for p in ICP_WITNESS['src'][0]]],
-                              tgt=[[[p[j] for j in perm] for p in ICP_WITNESS['tgt'][0]]]))
-        for w in cands:
-            why = replay(ctx, w)
-            if why:
-                ctx.known_hit[K_ICP] = 'witness still fails: ' + why
-                break
+def regression_block(ctx, pp, torch):
+    """the recorded witnesses of the two repaired defects, on every run"""
+    for w in witnesses():
+        ctx.case(('regression', 'svdtf', tuple(map(tuple, w['src'])), tuple(map(tuple, w['tgt']))), nontrivial=True, branch='regression:svdtf-reflection-witness')
+        why = replay(ctx, w)
+        if why:
+            ctx.violation(K_TF, 'svdtf(source, target): ' + why, w)
+            break
+    cands = [ICP_WITNESS]
+    for perm in ([1, 0, 2], [2, 1, 0], [0, 2, 1], [1, 2, 0], [2, 0, 1]):
+        cands.append(dict(ICP_WITNESS, src=[[[p[j] for j in perm] for p in ICP_WITNESS['src'][0]]],
+                          tgt=[[[p[j] for j in perm] for p in ICP_WITNESS['tgt'][0]]]))
+    for w in cands:
+        ctx.case(('regression', 'icp', tuple(map(tuple, w['src'][0]))), nontrivial=True, branch='regression:icp-planar-witness')
+        why = replay(ctx, w)
+        if why:
+            ctx.violation(K_ICP, why, w)
+            break
 
 
 # ------------------------------------------------------------------------------------ entry points
@@ -1040,7 +1047,7 @@ def run(ctx):
     t4 = _t.time()
     conversion_block(ctx, pp, torch, meta, tfc, stc, *raw.get('stage1', (1, 'stage1 did not run')))
     t5 = _t.time()
-    replay_known(ctx, pp, torch)
+    regression_block(ctx, pp, torch)
     ctx.notes.append('seconds: align %.0f, icp %.0f, epnp %.0f, coq exact route %.0f, conversion tie %.0f' % (t1 - t0, t2 - t1, t3 - t2, t4 - t3, t5 - t4))
     ctx.notes.append('model-vs-implementation disagreements: svdtf %d, svdstf %d, icp passes %d' % (len(bad['tf']), len(bad['stf']), len(bad['icp'])))
 
